@@ -101,13 +101,18 @@ Fixpoint for_each {Req Ans A B} (body : A -> prog Req Ans B) (l : list A) : prog
 Inductive req : Type :=
 | RRandom                                            (* rng.random() *)
 | RChoice (pool : list Z) (k : Z) (replace : bool)   (* rng.choice(<array>, k, replace=...) *)
-| RChoiceN (n : Z) (k : Z) (replace : bool).         (* rng.choice(<int n>, size=k, replace=...) *)
+| RChoiceN (n : Z) (k : Z) (replace : bool)          (* rng.choice(<int n>, size=k, replace=...) *)
+| RPermutation (pool : list Z).                      (* rng.permutation(<array>) *)
 Definition ans := list Z.
 
 Definition memZ (x : Z) (l : list Z) : bool := existsb (Z.eqb x) l.
 Fixpoint nodupZ (l : list Z) : bool :=
   match l with [] => true | x :: r => negb (memZ x r) && nodupZ r end.
 Definition KEY_ONE : Z := 4607182418800017408.   (* order key of the double 1.0 *)
+Definition countZ (x : Z) (l : list Z) : nat := length (filter (Z.eqb x) l).
+(* same elements with the same multiplicities *)
+Definition is_permZ (a pool : list Z) : bool :=
+  Nat.eqb (length a) (length pool) && forallb (fun x => Nat.eqb (countZ x a) (countZ x pool)) pool.
 
 (* the numpy contract of each request, checked on every recorded answer *)
 Definition valid_answer (r : req) (a : ans) : bool :=
@@ -117,6 +122,7 @@ Definition valid_answer (r : req) (a : ans) : bool :=
       (Z.of_nat (length a) =? k) && forallb (fun x => memZ x pool) a && (rep || nodupZ a)
   | RChoiceN n k rep =>
       (Z.of_nat (length a) =? k) && forallb (fun x => (0 <=? x) && (x <? n)) a && (rep || nodupZ a)
+  | RPermutation pool => is_permZ a pool
   end.
 Fixpoint answers_ok (rs : list req) (al : list ans) : bool :=
   match rs, al with
@@ -154,3 +160,180 @@ Definition dbal_subsample_prog (n_thetas max_combos : Z) : prog req ans (result 
   let c := binom3 n_thetas in
   if c =? 0 then Ret (Err 4)
   else Draw (RChoiceN c (Z.min c max_combos) false) (fun a => Ret (Ok a)).
+
+(* ---------------------------------------------------------------- vocabulary of the source translations
+   (harness/src_functions.py C18_* -> Generated/SrcRand.v, by harness/py2gal.py with cfg["monad"]).
+   A translated function denotes a program of the SAME resumption type whose output is a `result`
+   (a Python exception = the program ends with Ret (Err tag)).  The only way such a term can obtain
+   randomness is a [Draw]: the primitives below that contain one are the calls on the function's OWN
+   generator argument; no other primitive of a configuration contains a request. *)
+Definition rprog (Out : Type) : Type := prog req ans (result Out).
+Definition rp_ret {A : Type} (a : A) : rprog A := Ret (Ok a).
+Definition rp_raise {A : Type} (tag : Z) : rprog A := Ret (Err tag).
+Definition rp_bind {A B : Type} (p : rprog A) (f : A -> rprog B) : rprog B :=
+  bind p (fun r => match r with Ok a => f a | Err t => Ret (Err t) end).
+Notation "'dop' x <- e ; k" := (rp_bind e (fun x => k))
+  (at level 200, x pattern, e at level 100, k at level 200, right associativity).
+(* a for loop: the state is threaded left to right; an exception or a request in the body is the loop's *)
+Fixpoint rp_fold {S A : Type} (f : S -> A -> rprog S) (l : list A) (s : S) : rprog S :=
+  match l with
+  | [] => rp_ret s
+  | a :: r => dop s' <- f s a; rp_fold f r s'
+  end.
+Definition rp_unwrap {A : Type} (o : option A) : rprog A :=
+  match o with Some a => rp_ret a | None => rp_raise 99 end.
+(* a library call that may raise but makes no request *)
+Definition rp_lift {A : Type} (r : result A) : rprog A := Ret r.
+
+(* the calls on the generator argument *)
+Definition rp_draw (r : req) : rprog ans := Draw r (fun a => Ret (Ok a)).
+(* rng.random(): the answer [z] stands for the double with order key z *)
+Definition rp_random : rprog Z := Draw RRandom (fun a => Ret (Ok (hd 0 a))).
+(* rng.choice(<array>, k, replace=False) *)
+Definition rp_choice (pool : list Z) (k : Z) : rprog (list Z) := rp_draw (RChoice pool k false).
+(* rng.choice(<int n>, size=k, replace=False) *)
+Definition rp_choice_n (n k : Z) : rprog (list Z) := rp_draw (RChoiceN n k false).
+
+(* boolean selection vectors over the rows 0..n-1 *)
+(* np.zeros(n, dtype=bool) *)
+Definition mask_zeros (n : Z) : list bool := repeat false (Z.to_nat n).
+(* sel[idx] = True with an integer index array: every index must lie in -n..n-1 (otherwise IndexError, tag 98,
+   and nothing is written); a negative index counts from the end; repeated indices are harmless *)
+Definition wrap_index (n i : Z) : Z := if i <? 0 then i + n else i.
+Definition mask_set_true (sel : list bool) (idx : list Z) : result (list bool) :=
+  let n := zlen sel in
+  if forallb (fun i => (- n <=? i) && (i <? n)) idx
+  then Ok (map (fun jb : Z * bool => snd jb || memZ (fst jb) (map (wrap_index n) idx)) (combine (zrange n) sel))
+  else Err 98.
+(* a plate as the hold-out split sees it: (np.arange(screen.size)[plate.selection_vector], plate.is_observed) *)
+Definition plate_t : Type := (list Z * bool)%type.
+
+(* representation maps of the linking theorems (Proofs/C18Source.v) *)
+(* the hand-written programs return a plain value; the translation returns Ok of it *)
+Definition lift_ok {A : Type} (p : prog req ans A) : rprog A := bind p (fun a => Ret (Ok a)).
+(* the selection vector whose true positions are [held] *)
+Definition mask_of (size : Z) (held : list Z) : list bool := map (fun i => memZ i held) (zrange size).
+(* what both hold-out functions do after the draws: the two Screen(...) constructions, for ANY meaning
+   [mk_keep] / [mk_hold] of those constructor calls as functions of the screen and the selection vector *)
+Definition holdout_finish {Scr : Type} (mk_keep mk_hold : Scr -> list bool -> result Scr) (screen : Scr) (sel : list bool)
+  : result (Scr * Scr) :=
+  dor k <- mk_keep screen sel; dor h <- mk_hold screen sel; Ok (k, h).
+
+(* equality of programs up to the continuations' values on the answers [okA] admits (no functional
+   extensionality is assumed): same requests in the same order, same outputs *)
+Inductive prog_eq_on {Req Ans Out : Type} (okA : Req -> Ans -> bool) : prog Req Ans Out -> prog Req Ans Out -> Prop :=
+| peq_ret : forall o, prog_eq_on okA (Ret o) (Ret o)
+| peq_draw : forall r k k', (forall a, okA r a = true -> prog_eq_on okA (k a) (k' a)) ->
+                            prog_eq_on okA (Draw r k) (Draw r k').
+Definition any_answer {Req Ans : Type} (_ : Req) (_ : Ans) : bool := true.
+(* every answer of a run satisfied the contract of its request (generic form of [answers_ok]) *)
+Fixpoint all_ok {Req Ans : Type} (okA : Req -> Ans -> bool) (rs : list Req) (al : list Ans) : bool :=
+  match rs, al with
+  | [], _ => true
+  | r :: rs', a :: al' => okA r a && all_ok okA rs' al'
+  | _ :: _, [] => false
+  end.
+
+(* ---------------------------------------------------------------- FixedSizeSmoother / OptimalSizeSmoother
+   retrospective.py FixedSizeSmoother._smooth_plates, OptimalSizeSmoother._smooth_plates: a plate is its boolean
+   selection vector over the rows of the screen (all of length screen.size):
+       for plate in screen.plates:   size < t: dropped | size == t: kept |
+                                     size > t: rng.choice(np.arange(screen.size)[plate.selection_vector], t, replace=False),
+                                               replaced by np.isin(np.arange(screen.size), chosen)
+       final = OR of the kept vectors;  screen.subset(final).to_screen()
+   (a request numpy rejects - t < 0 - raises in Python; it has no valid answer in the sense of [valid_answer]) *)
+(* np.arange(n)[v] *)
+Definition positions_of (n : Z) (v : list bool) : list Z :=
+  map fst (filter (fun jb : Z * bool => snd jb) (combine (zrange n) v)).
+(* Plate.size = np.count_nonzero(selection_vector) *)
+Definition count_true (v : list bool) : Z := zlen (filter (fun b : bool => b) v).
+(* a | b on boolean vectors of equal length *)
+Definition bor_mask (a b : list bool) : list bool := map (fun ab : bool * bool => fst ab || snd ab) (combine a b).
+
+Definition size_smoother_body (size t : Z) (v : list bool) : prog req ans (list (list bool)) :=
+  if count_true v <? t then Ret []
+  else if count_true v =? t then Ret [v]
+  else Draw (RChoice (positions_of size v) t false) (fun a => Ret [mask_of size a]).
+Definition size_smoother_prog (plates : list (list bool)) (size t : Z) : prog req ans (list bool) :=
+  bind (for_each (size_smoother_body size t) plates)
+       (fun kept => Ret (fold_left bor_mask (concat kept) (mask_zeros size))).
+Definition size_smoother_req (size t : Z) (v : list bool) : req := RChoice (positions_of size v) t false.
+
+(* ---------------------------------------------------------------- PlatePermutationPlateGenerator / SampleSegregatingPermutationPlateGenerator
+   retrospective.py PlatePermutationPlateGenerator._generate_plates: the plate names (integers here) of the rows that are
+   not force-included are permuted by ONE rng.permutation(to_permute.plate_names); everything else is request-free. *)
+(* rng.permutation(<array>) *)
+Definition rp_permutation (pool : list Z) : rprog (list Z) := rp_draw (RPermutation pool).
+Definition plate_permutation_prog (names : list Z) : prog req ans (list Z) := Draw (RPermutation names) (fun a => Ret a).
+(* np.ones(n, dtype=bool) *)
+Definition mask_ones (n : Z) : list bool := repeat true (Z.to_nat n).
+(* the selection vector of the rows to permute: ~np.isin(plate_names, force) if force is a non-empty list, else all rows *)
+Definition pp_selection (force : option (list Z)) (names : list Z) (size : Z) : list bool :=
+  match force with
+  | Some (x :: l) => map (fun n => negb (memZ n (x :: l))) names
+  | _ => mask_ones size
+  end.
+(* what the method does around its single request, for ANY meaning of screen.subset(v).to_screen() [mk_subset], of the
+   Screen(...) construction with the new names [mk_renamed] and of a.combine(b) [mk_combine] *)
+Definition pp_split {Scr : Type} (mk_subset : Scr -> list bool -> result Scr) (screen : Scr) (sv : list bool)
+  : result (Scr * option Scr) :=
+  if existsb negb sv
+  then dor tp <- mk_subset screen sv; dor np <- mk_subset screen (map negb sv); Ok (tp, Some np)
+  else dor tp <- mk_subset screen sv; Ok (tp, None).
+Definition pp_finish {Scr : Type} (mk_renamed : Scr -> list Z -> result Scr) (mk_combine : Scr -> Scr -> result Scr)
+           (tp : Scr) (np : option Scr) (new_names : list Z) : result Scr :=
+  dor p <- mk_renamed tp new_names;
+  match np with Some n => mk_combine p n | None => Ok p end.
+
+(* retrospective.py SampleSegregatingPermutationPlateGenerator._generate_plates: per sample, in the order of
+   screen.unique_sample_ids, the rows of the sample form one plate if there are at most max_plate_size of them, else they
+   are permuted by ONE rng.permutation(rows) and np.array_split into ceil(len / max_plate_size) plates; then row i is
+   labelled with the number of the (last) plate that contains it. *)
+(* math.ceil(a / float(b)): ZeroDivisionError (tag 94) for b = 0; exact for the sizes of a screen *)
+Definition ceil_div_float (a b : Z) : result Z := if b =? 0 then Err 94 else Ok (- ((- a) / b)).
+(* np.array_split(l, n): ValueError (tag 95) unless n > 0; the first len % n parts have one element more *)
+Definition split_start (q r j : nat) : nat := (j * q + Nat.min j r)%nat.
+Definition array_split_z (l : list Z) (n : Z) : result (list (list Z)) :=
+  if n <=? 0 then Err 95
+  else
+    let k := Z.to_nat n in
+    let q := (length l / k)%nat in
+    let r := (length l mod k)%nat in
+    Ok (map (fun j => firstn (split_start q r (S j) - split_start q r j) (skipn (split_start q r j) l)) (seq 0 k)).
+(* plate_names = np.array([""] * n, dtype=object): the label -1 stands for "" *)
+Definition labels_blank (n : Z) : list Z := repeat (-1) (Z.to_nat n).
+(* plate_names[indices] = f"generated_plate_{k}" with an integer index array: IndexError (tag 98) outside -n..n-1 *)
+Definition label_set (labels : list Z) (idx : list Z) (k : Z) : result (list Z) :=
+  let n := zlen labels in
+  if forallb (fun i => (- n <=? i) && (i <? n)) idx
+  then Ok (map (fun jl : Z * Z => if memZ (fst jl) (map (wrap_index n) idx) then k else snd jl) (combine (zrange n) labels))
+  else Err 98.
+Definition enumerate_zz {A : Type} (l : list A) : list (Z * A) := combine (zrange (zlen l)) l.
+(* the labelling loop as a function: for k, indices in enumerate(plates): labels[indices] = k *)
+Fixpoint label_all (labels : list Z) (kps : list (Z * list Z)) : result (list Z) :=
+  match kps with
+  | [] => Ok labels
+  | (k, idx) :: rest => dor l <- label_set labels idx k; label_all l rest
+  end.
+Definition sample_seg_body (mx : Z) (g : list Z) : prog req ans (result (list (list Z))) :=
+  if zlen g >? mx then
+    match ceil_div_float (zlen g) mx with
+    | Err e => Ret (Err e)
+    | Ok n => Draw (RPermutation g) (fun a => Ret (array_split_z a n))
+    end
+  else Ret (Ok [g]).
+(* the plates' row lists, in creation order; a raising library call inside the loop ends it *)
+Fixpoint sample_seg_plates (mx : Z) (groups : list (list Z)) : prog req ans (result (list (list Z))) :=
+  match groups with
+  | [] => Ret (Ok [])
+  | g :: rest =>
+      bind (sample_seg_body mx g) (fun r =>
+        match r with
+        | Err e => Ret (Err e)
+        | Ok ps => bind (sample_seg_plates mx rest) (fun r2 => Ret (match r2 with Ok qs => Ok (ps ++ qs) | Err e => Err e end))
+        end)
+  end.
+(* output: the label (plate number) of every row *)
+Definition sample_seg_prog (groups : list (list Z)) (size mx : Z) : prog req ans (result (list Z)) :=
+  bind (sample_seg_plates mx groups)
+       (fun r => Ret (match r with Ok ps => label_all (labels_blank size) (enumerate_zz ps) | Err e => Err e end)).
